@@ -5444,18 +5444,14 @@ class PyCdlib:
             # Step 2.
             br = headervd.BootRecord()
             br.new(b'EL TORITO SPECIFICATION')
-            self.brs.append(br)
-            # On a UDF ISO, adding a new Boot Record doesn't actually increase
-            # the size, since there are a bunch of gaps at the beginning.
-            if not self._has_udf:
-                num_bytes_to_add += self.logical_block_size
 
-            # Step 3.
-            self.eltorito_boot_catalog = eltorito.EltoritoBootCatalog(br)
-            self.eltorito_boot_catalog.new(br, boot_dirrecord.inode,
-                                           sector_count, boot_load_seg,
-                                           media_name, system_type, platform_id,
-                                           bootable)
+            # Step 3.  Creating the Boot Catalog checks the platform ID, the
+            # media name and the sector count.  Neither the Boot Record nor the
+            # Boot Catalog is made part of the ISO before that has succeeded.
+            boot_catalog = eltorito.EltoritoBootCatalog(br)
+            boot_catalog.new(br, boot_dirrecord.inode, sector_count,
+                             boot_load_seg, media_name, system_type,
+                             platform_id, bootable)
 
             # Step 4.
             rrname = ''
@@ -5465,10 +5461,28 @@ class PyCdlib:
                 else:
                     rrname = rr_bootcatname
 
-            num_bytes_to_add += self._add_fp(None, self.logical_block_size,
-                                             False, bootcatfile, rrname,
-                                             joliet_bootcatfile,
-                                             udf_bootcatfile, None, True)
+            # The entries of the Boot Catalog file register themselves with
+            # the Boot Catalog of the ISO, so it has to be in place here.
+            self.eltorito_boot_catalog = boot_catalog
+            try:
+                num_bytes_to_add += self._add_fp(None, self.logical_block_size,
+                                                 False, bootcatfile, rrname,
+                                                 joliet_bootcatfile,
+                                                 udf_bootcatfile, None, True)
+            except Exception:
+                # The name for the Boot Catalog file was refused; the ISO
+                # stays without a Boot Catalog, and the boot file is no longer
+                # referenced by its Initial Entry.
+                self.eltorito_boot_catalog = None
+                boot_dirrecord.inode.linked_records = [link for link in boot_dirrecord.inode.linked_records
+                                                       if id(link[0]) != id(boot_catalog.initial_entry)]
+                raise
+
+            self.brs.append(br)
+            # On a UDF ISO, adding a new Boot Record doesn't actually increase
+            # the size, since there are a bunch of gaps at the beginning.
+            if not self._has_udf:
+                num_bytes_to_add += self.logical_block_size
 
         # The Boot Info Table is only attached to the boot file once the entry
         # has been accepted, so that a refused call leaves the file alone.
